@@ -130,6 +130,59 @@ mod proofs {
     conv_harness!(conv_u8_bin, u8, false, Binary, 2, 6);
     conv_harness!(conv_u8_oct, u8, false, Octal, 8, 4);
 
+    // ---- Node::child: case-insensitive first match (C01, C11)
+    use microscpi::Node;
+    static LEAF_A: Node = Node { children: &[], command: Some(1), query: None };
+    static LEAF_B: Node = Node { children: &[], command: Some(2), query: None };
+    static LEAF_C: Node = Node { children: &[], command: None, query: Some(3) };
+    static LEAF_D: Node = Node { children: &[], command: Some(4), query: Some(5) };
+    static LEAF_E: Node = Node { children: &[], command: Some(6), query: None };
+    static ROOT: Node = Node {
+        children: &[("VOLT", &LEAF_A), ("VOLT_AC", &LEAF_B), ("VOLTAGE", &LEAF_C), ("Z", &LEAF_D), ("*Z9", &LEAF_E)],
+        command: None,
+        query: None,
+    };
+
+    fn fold(b: u8) -> u8 { if b >= b'a' && b <= b'z' { b - 32 } else { b } }
+
+    fn reference_child(name: &[u8]) -> Option<usize> {
+        let keys: [&[u8]; 5] = [b"VOLT", b"VOLT_AC", b"VOLTAGE", b"Z", b"*Z9"];
+        let mut k = 0;
+        while k < 5 {
+            let key = keys[k];
+            if key.len() == name.len() {
+                let mut same = true;
+                let mut i = 0;
+                while i < key.len() {
+                    if fold(key[i]) != fold(name[i]) { same = false; }
+                    i += 1;
+                }
+                if same { return Some(k); }
+            }
+            k += 1;
+        }
+        None
+    }
+
+    #[kani::proof]
+    #[kani::unwind(9)]
+    fn child_lookup() {
+        let bytes: [u8; 7] = kani::any();
+        let n: usize = kani::any();
+        kani::assume(n <= 7);
+        let mut i = 0;
+        while i < 7 { kani::assume(bytes[i] < 128); i += 1; }
+        let name = core::str::from_utf8(&bytes[..n]).unwrap();
+        let got = ROOT.child(name);
+        let want = reference_child(&bytes[..n]);
+        let nodes: [&'static Node; 5] = [&LEAF_A, &LEAF_B, &LEAF_C, &LEAF_D, &LEAF_E];
+        match want {
+            Some(k) => assert!(got.is_some() && core::ptr::eq(got.unwrap(), nodes[k])),
+            None => assert!(got.is_none()),
+        }
+        kani::cover!(got.is_some(), "reached: some name matches");
+    }
+
     #[kani::proof]
     fn conv_wrong_kind() {
         let v = Value::String("12");
